@@ -142,6 +142,9 @@ Proof.
       * intros H y Hy. apply H. now right.
 Qed.
 
+Lemma existsb_ext' {A} (f g : A -> bool) l : (forall x, f x = g x) -> existsb f l = existsb g l.
+Proof. intro H. induction l as [|a l IH]; cbn; [reflexivity | now rewrite H, IH]. Qed.
+
 Section MuxProofs.
   Variable re_match : string -> string -> bool.
   Variable re_replace : string -> string -> string -> string.
@@ -241,9 +244,9 @@ Section MuxProofs.
           unfold spec_rules. cbn [option_map].
           destruct (find (full_match rq) (ents t)); [reflexivity|].
           do 2 f_equal.
-          -- rewrite <- orb_assoc. do 2 f_equal. apply existsb_ext. intro x.
+          -- rewrite <- orb_assoc. do 2 f_equal. apply existsb_ext'. intro x.
              unfold Mux.pm_match, pmh. cbn. rewrite Hh. cbn. reflexivity.
-          -- rewrite <- orb_assoc. do 2 f_equal. apply existsb_ext. intro x.
+          -- rewrite <- orb_assoc. do 2 f_equal. apply existsb_ext'. intro x.
              unfold pnm_match, pnm. cbn. rewrite Hh. reflexivity.
       + rewrite IH. destruct (allow_all (rule_filters rq t) rq); [|reflexivity].
         rewrite (find_none_false (fun x => full_match rq (r, x))).
@@ -255,9 +258,6 @@ Section MuxProofs.
         2:{ intro x. unfold pnm_match. cbn. now rewrite Hh. }
         reflexivity.
   Qed.
-
-  Lemma existsb_ext' {A} (f g : A -> bool) l : (forall x, f x = g x) -> existsb f l = existsb g l.
-  Proof. intro H. induction l as [|a l IH]; cbn; [reflexivity | now rewrite H, IH]. Qed.
 
   (** when nothing matches path+method, "some path matches" = "some path matches with another method" *)
   Lemma no_pm_then_p_is_pnm : forall rq (es : list (rule * path_entry)),
@@ -277,7 +277,7 @@ Section MuxProofs.
     destruct (find (full_match rq) (ents (sv_rules sv))); [reflexivity|]. cbn [orb].
     unfold fail_code.
     destruct (existsb (pm_match rq) (ents (sv_rules sv))) eqn:E; [reflexivity|].
-    rewrite (no_pm_then_p_is_pnm _ _ E). reflexivity.
+    rewrite (no_pm_then_p_is_pnm _ _ E). destruct (existsb (p_match rq) (ents (sv_rules sv))); reflexivity.
   Qed.
 
   (** C01 main refinement (with the IP filters: 403 iff an applying filter denies) *)
@@ -508,8 +508,9 @@ Section MuxProofs.
   Lemma ents_erase : forall rs,
     ents (map erase_rule rs) = map (fun e => (erase_rule (fst e), erase_path (snd e))) (ents rs).
   Proof.
-    induction rs as [|r t IH]; cbn; [reflexivity|].
-    rewrite map_app, IH. f_equal. cbn. rewrite !map_map. reflexivity.
+    induction rs as [|r t IH]; [reflexivity|].
+    unfold ents in *. cbn [map flat_map]. rewrite map_app, IH. f_equal.
+    cbn [erase_rule ru_paths]. rewrite !map_map. reflexivity.
   Qed.
 
   Lemma search_spec_erase : forall sv rq,
@@ -519,8 +520,10 @@ Section MuxProofs.
     intros sv rq. unfold Mux.search_spec, Mux.entries. fold (ents (sv_rules (erase_filters sv))).
     fold (ents (sv_rules sv)). cbn [erase_filters sv_rules]. rewrite ents_erase, find_map, !existsb_map.
     rewrite (find_ext _ (full_match rq)) by (intros [r p]; reflexivity).
-    rewrite (existsb_ext' _ (pm_match rq)) by (intros [r p]; reflexivity).
-    rewrite (existsb_ext' _ (p_match rq)) by (intros [r p]; reflexivity).
+    rewrite (existsb_ext' (fun x => pm_match rq (erase_rule (fst x), erase_path (snd x))) (pm_match rq))
+      by (intros [r p]; reflexivity).
+    rewrite (existsb_ext' (fun x => p_match rq (erase_rule (fst x), erase_path (snd x))) (p_match rq))
+      by (intros [r p]; reflexivity).
     destruct (find (full_match rq) (ents (sv_rules sv))) as [[r p]|]; cbn; [reflexivity|].
     destruct (existsb _ _); [reflexivity|]. destruct (existsb _ _); reflexivity.
   Qed.
